@@ -49,7 +49,7 @@ def cases(tier, seed):
     for v in variants + ("mixed",):
         fam += progs.p_shapes(v)
         fam += progs.pc_shapes(v) if v != "mixed" else []
-    for q in al.Q_ORDER:
+    for q in al.Q_ORDER + ["tear", "tearg", "halfc8", "ilens", "iarch"]:
         fam.append(["L", "Q." + q])
         fam.append(["L", "Q." + q + "@cw"])
     for q in al.Q_ORDER:
